@@ -121,6 +121,7 @@ def _wshard(arg):
     keyacc = hashlib.sha1()
     t_sh = time.time()
     agg["slow"] = []
+    agg["capped_keys"] = []
     for case in mod.cases(shard):
         t_c = time.time()
         r = run_one(mod, case)
@@ -157,6 +158,9 @@ def _wshard(arg):
                         {"case": case, "hash": h, "digest": d, "detail": r.get("detail"),
                          "known_other_digest": kn[1] if kn else None}
                     )
+        elif st == "capped":
+            if len(agg["capped_keys"]) < 10:
+                agg["capped_keys"].append(case["key"][:300])
         elif st == "harness_error":
             if len(agg["errors"]) < 5:
                 agg["errors"].append({"case": case, "detail": r.get("detail")})
@@ -325,6 +329,7 @@ def main(modname, tier, collect=None):
             "bound_completed": bound,
             "exhaustive": capped == 0,
             "capped_cases": capped,
+            "capped_case_keys": [k for a in aggs for k in a.get("capped_keys", [])][:40],
             "case_cpu_cap_s": CASE_CAP_S,
             "status_counts": status,
             "counters": counters,
